@@ -39,14 +39,16 @@ func newC07Machine(w *World) *c07Machine {
 	return &c07Machine{w: w, ctx: caseCtx(w), lenders: w.Accounts[:4], borrower: w.Accounts[4].Addr, Labels: map[string]bool{}}
 }
 
-func (m *c07Machine) tv() sdkmath.Int   { return m.w.App.StablestakeKeeper.GetParams(m.ctx).TotalValue }
+func (m *c07Machine) tv() sdkmath.Int { return m.w.App.StablestakeKeeper.GetParams(m.ctx).TotalValue }
 func (m *c07Machine) cash() sdkmath.Int {
 	return m.w.App.BankKeeper.GetBalance(m.ctx, sdk.MustAccAddressFromBech32(modAddr(sstypes.ModuleName)), ptypes.BaseCurrency).Amount
 }
 func (m *c07Machine) supply() sdkmath.Int {
 	return m.w.App.BankKeeper.GetSupply(m.ctx, sstypes.GetShareDenom()).Amount
 }
-func (m *c07Machine) rate() sdkmath.LegacyDec { return m.w.App.StablestakeKeeper.GetRedemptionRate(m.ctx) }
+func (m *c07Machine) rate() sdkmath.LegacyDec {
+	return m.w.App.StablestakeKeeper.GetRedemptionRate(m.ctx)
+}
 func (m *c07Machine) shares(a *Account) sdkmath.Int {
 	c := m.w.App.CommitmentKeeper.GetCommitments(m.ctx, a.Addr)
 	return c.GetCommittedAmountForDenom(sstypes.GetShareDenom())
